@@ -197,13 +197,34 @@ func (c *Check) genesisCodecs(rule string) {
 	// encoders: map writes inside the export closures
 	enc := map[string]string{} // genesis field -> encoder op
 	ctorArgs := c.genesisCtorArgs(exp)
+	// the map-typed fields of the genesis state, by type (a collection is recognised by its type wherever
+	// the export builds it: in the export function, or in a helper that is part of it)
+	mapFields := map[string]string{} // type string -> field ("" if ambiguous)
+	if rt, ok := exp.Res[0].Type().(*types.Pointer); ok {
+		if st, ok := rt.Elem().Underlying().(*types.Struct); ok {
+			for i := 0; i < st.NumFields(); i++ {
+				if _, isMap := st.Field(i).Type().Underlying().(*types.Map); isMap {
+					ts := st.Field(i).Type().String()
+					if _, dup := mapFields[ts]; dup {
+						mapFields[ts] = ""
+					} else {
+						mapFields[ts] = st.Field(i).Name()
+					}
+				}
+			}
+		}
+	}
 	for _, f := range c.P.Funcs {
-		if f.Parent != exp {
+		if f.Parent == nil || c.P.inlineHost(f.root()) != exp {
 			continue
 		}
 		for _, pa := range c.P.PathsOf(f) {
 			for _, ev := range pa.Events {
 				if ev.Kind == EvAssign && ev.Val != nil && ev.Val.Op == "upd" && len(ev.Val.A) == 3 && ev.Var != nil {
+					if fld := mapFields[ev.Var.Type().String()]; fld != "" {
+						enc[fld] = ev.Val.A[1].Op
+						continue
+					}
 					for fld, v := range ctorArgs {
 						if v == ev.Var.Name() {
 							enc[fld] = ev.Val.A[1].Op
